@@ -149,6 +149,7 @@ def run(ctx):
     known_value(ctx, facts)
     reshare(ctx, facts)
     reveal_algebra(ctx, facts)
+    reveal_excluded(ctx, facts)
     wiring(ctx, facts)
     aggregate(ctx, facts)
     from rules import C01
@@ -875,5 +876,55 @@ def reveal_algebra(ctx, facts):
                     except Unknown as u:
                         why = f"cannot read the opened value ({u})"
             ctx.ob("POLY-reveal", f"{name}:opened=received+left+right", oko, why, site_of(main))
+    finally:
+        flow.CLOSURE_DEFS = old
+
+
+def reveal_excluded(ctx, facts):
+    """Partial opening: the excluded helper must learn nothing and must not be waited for."""
+    from rules.C06 import upvar_sources
+    ctx.rule("POLY-reveal (excluded): a share is sent towards direction d only under Some(role.peer(d)) != excluded with the same d as the channel; the excluded helper itself returns Ok(None) without receiving; everybody else receives")
+    old = flow.CLOSURE_DEFS
+    flow.CLOSURE_DEFS = True
+    try:
+        for root in ("protocol::basics::reveal::semi_honest_reveal", "protocol::basics::reveal::malicious_reveal"):
+            tree = facts.tree(root)
+            main = next((b for b in tree if b.coroutine), None)
+            if main is None:
+                ctx.missing("POLY-reveal", root + " (excluded)")
+                continue
+            name = root.split("::")[-1]
+            dom = main.dominators()
+            def dirs(e):
+                return set(re.findall(r"'helpers::Direction', '(Left|Right)'", str(e)))
+            gs = malsec.guards(main, r"PartialEq::(ne|eq)$")
+            # 1. sends
+            ok1, why1 = True, "each send is conditional on its own target not being the excluded helper"
+            nsend = 0
+            for bb, t in main.calls():
+                fn = F.callee(t)[0] or ""
+                if fn.endswith("::send") and len(t["args"]) == 3:
+                    nsend += 1
+                    d_ch = dirs(flow.expr_of(main, t["args"][0], max_depth=10))
+                    cond = [g for g in gs if g[3][1].endswith("::ne") and "excluded" in str(g[1]) and "Role::peer" in str(g[1]) and flow.dominates(dom, g[2][1], bb)]
+                    if not cond or dirs(cond[0][1]) != d_ch:
+                        ok1, why1 = False, f"a share is sent towards {sorted(d_ch)} without the test Some(peer({sorted(d_ch)})) != excluded: the excluded helper receives a share (it can open the value) or a needed share is withheld"
+                if fn.endswith("MaybeFuture::<Fut>::future_or_ok") or fn.endswith("future_or_ok"):
+                    nsend += 1
+                    cond = flow.expr_of(main, t["args"][0], max_depth=10)
+                    clo = flow.expr_of(main, t["args"][1], max_depth=10)
+                    okc = cond[0] == "call" and cond[1].endswith("PartialEq::ne") and "excluded" in str(cond) and "Role::peer" in str(cond)
+                    if not okc or dirs(cond) != dirs(clo) or len(dirs(cond)) != 1:
+                        ok1, why1 = False, f"future_or_ok sends towards {sorted(dirs(clo))} under a condition about {sorted(dirs(cond))}: the excluded helper is sent a share, or another helper is not"
+            ctx.ob("POLY-reveal", f"{name}:no-send-to-excluded", ok1 and nsend >= 1, why1, site_of(main))
+            # 2. excluded helper returns None without receiving
+            eqs = [g for g in gs if g[3][1].endswith("::eq") and "excluded" in str(g[1]) and "Context::role" in str(g[1]) and "Role::peer" not in str(g[1])]
+            recvs = [bb for bb, t in main.calls() if (F.callee(t)[0] or "").endswith("::receive")]
+            nones = [bb for bb, idx, s in main.iter_assigns() if s["r"]["k"] == "agg" and s["r"].get("adt") == "std::option::Option" and s["r"].get("vn") == "None" and not s["r"]["ops"]]
+            ok2 = False
+            if eqs:
+                g = eqs[0]
+                ok2 = any(flow.dominates(dom, g[2][1], nb) for nb in nones) and all(flow.dominates(dom, g[2][0], rb) for rb in recvs) and bool(recvs)
+            ctx.ob("POLY-reveal", f"{name}:excluded-returns-none", ok2, "Some(role) == excluded => Ok(None); otherwise receive" if ok2 else "the excluded helper waits for a share nobody sends it, or a non-excluded helper returns None", site_of(main, eqs[0][0]) if eqs else site_of(main))
     finally:
         flow.CLOSURE_DEFS = old
